@@ -150,7 +150,7 @@ func (g *G) SubText(kind string, flags uint, htype int) []byte {
 		s = sb.String()
 	case "nameaddr", "fromval", "onecontact", "onepai", "contacts", "pais":
 		if g.R.Chance(1, 2) {
-			s = g.LWS(false) + g.NameAddrList(5)
+			s = g.LWS(false) + g.NameAddrList(5, true)
 		} else {
 			s = g.LWS(false) + g.NameAddr(true)
 		}
